@@ -66,12 +66,13 @@ Proof. exact upload_completes. Qed.
 Print Assumptions C19_upload_completes.
 
 (* "an interrupted upload leaves neither a partial file under the final name nor a leftover temporary": source
-   error or disconnect after any number of blocks, and a crash anywhere inside that path *)
-Theorem C19_interrupted_upload : forall s0 final blocks k,
+   error, disconnect, or a block that cannot be written (oc = SrcError | BadBlock) after any number of blocks, and a
+   crash anywhere inside that path *)
+Theorem C19_interrupted_upload : forall oc s0 final blocks k, oc <> Done ->
   wf_st s0 -> unshared s0 (final ++ putfile_tmp_ext) -> clean s0 -> no_dir_at s0 (final ++ putfile_tmp_ext) ->
-  let s := run s0 (firstn k (upload_ops final blocks SrcError)) in
+  let s := run s0 (firstn k (upload_ops final blocks oc)) in
   (forall q, q <> final ++ putfile_tmp_ext -> look s q = look s0 q) /\ followed s = false /\ failed s = false /\
-  ((List.length (upload_ops final blocks SrcError) <= k)%nat -> names s (final ++ putfile_tmp_ext) = None).
+  ((List.length (upload_ops final blocks oc) <= k)%nat -> names s (final ++ putfile_tmp_ext) = None).
 Proof. exact upload_interrupted. Qed.
 Print Assumptions C19_interrupted_upload.
 
